@@ -517,6 +517,9 @@ func (e *Engine) havocAll(st *State) {
 	if e.c != nil {
 		for _, tn := range strings.Fields(e.c.Opts["stable"]) {
 			pfx := "F_" + mangle(e.c.Pkg+"."+tn) + "_"
+			if strings.Contains(tn, ".") {
+				pfx = "F_" + mangle(tn) + "_" // fully qualified type of another package
+			}
 			for k := range e.sortDone {
 				if name, ok := strings.CutPrefix(k, "heap:"); ok && strings.HasPrefix(name, pfx) {
 					keep[name] = e.heapGet(st, name, e.sortDone[k])
